@@ -441,8 +441,10 @@ def binop(it, op, a, b):
             return str_concat(it, [a, b])
         if isinstance(op, ast.Mod):
             raise Unsupported("% formatting on SegStr")
-    if isinstance(a, (SymBytes, bytes)) and isinstance(b, (SymBytes, bytes)) and (isinstance(a, SymBytes) or isinstance(b, SymBytes)):
+    if isinstance(a, (SymBytes, bytes, bytearray)) and isinstance(b, (SymBytes, bytes, bytearray)) and (isinstance(a, SymBytes) or isinstance(b, SymBytes)):
         if isinstance(op, ast.Add):
+            # (a bytearray that receives symbolic bytes is continued as an immutable symbolic byte string: sound as long as the
+            #  bytearray object is not aliased, which is the case for local accumulators)
             la = a.bs if isinstance(a, SymBytes) else list(a)
             lb = b.bs if isinstance(b, SymBytes) else list(b)
             return SymBytes(la + lb)
